@@ -69,7 +69,7 @@ func vfH_C10_refuse() {
 func vfH_C10_defer() {
 	env := vfNewEnv(1)
 	key := vfKey(1)
-	env.db.status = STATE_FOLLOWER
+	env.db.status = vfNonLeaderStatus("status") // every non-leader state, not only "follower"
 	c := env.newCmd(protocol.COMMAND_LOCK, key, vfLockId(1))
 	c.Flag = protocol.LOCK_FLAG_FROM_AOF
 	c.Expried, c.Count = 3, 0
